@@ -79,10 +79,10 @@ def program(draw, emphasis='c01'):
 
     fail_p = {'c01': 1, 'c05': 2, 'c06': 3}[emphasis]
     sync_p = 0 if emphasis == 'c01' else 1
-    plans = [{'dur': d0, 'outcome': draw(st.sampled_from(['ret'] * 6 + ['raise'] * fail_p + ['raise_sync'] * sync_p))}]
+    plans = [{'dur': d0, 'outcome': draw(st.sampled_from(['ret'] * 6 + ['raise'] * fail_p + ['raise_sync'] * sync_p + ['raise_base'] * min(fail_p, 1)))}]
     for _ in range(draw(st.integers(0, 4))):
         plans.append({'dur': draw(st.sampled_from(DURS)),
-                      'outcome': draw(st.sampled_from(['ret'] * 4 + ['raise'] * fail_p + ['raise_sync'] * sync_p))})
+                      'outcome': draw(st.sampled_from(['ret'] * 4 + ['raise'] * fail_p + ['raise_sync'] * sync_p + ['raise_base'] * min(fail_p, 1)))})
     nthreads = draw(st.integers(2, 4))
     two_keys = draw(st.integers(0, 5)) == 0
     threads = []
@@ -198,7 +198,7 @@ def valid(case):
         if not case['threads'] or not case['plans'] or not schedule_valid(case['sched']):
             return False
         for p in case['plans']:
-            if p['outcome'] not in ('ret', 'raise', 'raise_sync') or not (-1 <= p['dur'] <= 2 or p['dur'] == LONG):
+            if p['outcome'] not in ('ret', 'raise', 'raise_sync', 'raise_base') or not (-1 <= p['dur'] <= 2 or p['dur'] == LONG):
                 return False
         for t in case['threads']:
             if t['runner'] not in ('run', 'manual', 'resume') or t['end']['mode'] not in ('await', 'leave', 'stop'):
@@ -240,7 +240,7 @@ def simplify(case):
     if case['cache'] != 'default':
         yield dict(copy.deepcopy(case), cache='default')
     for pi, p in enumerate(case['plans']):
-        if p['outcome'] in ('raise', 'raise_sync'):
+        if p['outcome'] in ('raise', 'raise_sync', 'raise_base'):
             n = copy.deepcopy(case)
             n['plans'][pi]['outcome'] = 'ret'
             yield n
